@@ -2,7 +2,7 @@
 # imports the deliverables of a seeded-change sub-agent (/tmp/seedwork/out-<id>) into /verif/seeded/<id>-a (and -b), removes its worktree
 id=$1
 round=${2:-1}
-if [ "$round" = 3 ]; then src=/tmp/seedwork/out3-$id; s1=e; s2=f; wt=/tmp/seedwork/wt3-$id; elif [ "$round" = 2 ]; then src=/tmp/seedwork/out2-$id; s1=c; s2=d; wt=/tmp/seedwork/wt2-$id; else src=/tmp/seedwork/out-$id; s1=a; s2=b; wt=/tmp/seedwork/wt-$id; fi
+if [ "$round" = 4 ]; then src=/tmp/seedwork/out4-$id; s1=g; s2=h; wt=/tmp/seedwork/wt4-$id; elif [ "$round" = 3 ]; then src=/tmp/seedwork/out3-$id; s1=e; s2=f; wt=/tmp/seedwork/wt3-$id; elif [ "$round" = 2 ]; then src=/tmp/seedwork/out2-$id; s1=c; s2=d; wt=/tmp/seedwork/wt2-$id; else src=/tmp/seedwork/out-$id; s1=a; s2=b; wt=/tmp/seedwork/wt-$id; fi
 cd "$(dirname "$0")/.."
 imp() { # suffix patch readme demo
   [ -f "$src/$2" ] || return 0
